@@ -1,0 +1,122 @@
+// MIT License
+//
+// Copyright (c) 2022-2026 GoAkt Team
+//
+// Permission is hereby granted, free of charge, to any person obtaining a copy
+// of this software and associated documentation files (the "Software"), to deal
+// in the Software without restriction, including without limitation the rights
+// to use, copy, modify, merge, publish, distribute, sublicense, and/or sell
+// copies of the Software, and to permit persons to whom the Software is
+// furnished to do so, subject to the following conditions:
+//
+// The above copyright notice and this permission notice shall be included in all
+// copies or substantial portions of the Software.
+//
+// THE SOFTWARE IS PROVIDED "AS IS", WITHOUT WARRANTY OF ANY KIND, EXPRESS OR
+// IMPLIED, INCLUDING BUT NOT LIMITED TO THE WARRANTIES OF MERCHANTABILITY,
+// FITNESS FOR A PARTICULAR PURPOSE AND NONINFRINGEMENT. IN NO EVENT SHALL THE
+// AUTHORS OR COPYRIGHT HOLDERS BE LIABLE FOR ANY CLAIM, DAMAGES OR OTHER
+// LIABILITY, WHETHER IN AN ACTION OF CONTRACT, TORT OR OTHERWISE, ARISING FROM,
+// OUT OF OR IN CONNECTION WITH THE SOFTWARE OR THE USE OR OTHER DEALINGS IN THE
+// SOFTWARE.
+
+//go:build verif
+
+package cluster
+
+import (
+	"sort"
+
+	"github.com/tochemey/goakt/v4/discovery"
+	"github.com/tochemey/goakt/v4/log"
+)
+
+// VerifTracker gives the external verification harness access to the
+// membership event tracker of an unstarted cluster (no olric server, no
+// subscription): payloads are fed straight to handleClusterEvent and emitted
+// events are read from the events channel. Verification harness only.
+type VerifTracker struct {
+	c *cluster
+}
+
+// VerifTrackerState is a read-only projection of the tracker's bookkeeping.
+type VerifTrackerState struct {
+	JoinTimestamps map[string]int64
+	LeftTimestamps map[string]int64
+	JoinEpochs     map[string]uint64
+	LeftEpochs     map[string]uint64
+	JoinLatest     uint64
+	LeftLatest     uint64
+	StartSeen      []uint64
+	CompleteSeen   []uint64
+	JoinedFilter   []string
+	LeftFilter     []string
+}
+
+// VerifNewTracker builds the tracker of a cluster created by New for the given local node.
+func VerifNewTracker(host string, peersPort int) *VerifTracker {
+	c := New("verif", nil, &discovery.Node{Host: host, PeersPort: peersPort}, WithLogger(log.DiscardLogger)).(*cluster)
+	return &VerifTracker{c: c}
+}
+
+// Self returns the local node's peers address.
+func (t *VerifTracker) Self() string { return t.c.node.PeersAddress() }
+
+// Handle feeds one cluster-events payload to handleClusterEvent.
+func (t *VerifTracker) Handle(payload string) error { return t.c.handleClusterEvent(payload) }
+
+// FireOverdue runs the callback of the nodeLeftEmitTimeout timer for node.
+func (t *VerifTracker) FireOverdue(node string) { t.c.emitOverdueNodeLeft(node) }
+
+// Drain returns the events emitted so far, in emission order.
+func (t *VerifTracker) Drain() []*Event {
+	var out []*Event
+	for {
+		select {
+		case e := <-t.c.events:
+			out = append(out, e)
+		default:
+			return out
+		}
+	}
+}
+
+// State returns a copy of the tracker's bookkeeping.
+func (t *VerifTracker) State() VerifTrackerState {
+	c := t.c
+	c.eventsLock.Lock()
+	defer c.eventsLock.Unlock()
+	s := VerifTrackerState{
+		JoinTimestamps: make(map[string]int64, len(c.nodeJoinTimestamps)),
+		LeftTimestamps: make(map[string]int64, len(c.nodeLeftTimestamps)),
+		JoinEpochs:     make(map[string]uint64, len(c.rebalanceJoinNodeEpochs)),
+		LeftEpochs:     make(map[string]uint64, len(c.rebalanceLeftNodeEpochs)),
+		JoinLatest:     c.rebalanceJoinLatestEpoch,
+		LeftLatest:     c.rebalanceLeftLatestEpoch,
+		JoinedFilter:   c.nodeJoinedEventsFilter.ToSlice(),
+		LeftFilter:     c.nodeLeftEventsFilter.ToSlice(),
+	}
+	for k, v := range c.nodeJoinTimestamps {
+		s.JoinTimestamps[k] = v
+	}
+	for k, v := range c.nodeLeftTimestamps {
+		s.LeftTimestamps[k] = v
+	}
+	for k, v := range c.rebalanceJoinNodeEpochs {
+		s.JoinEpochs[k] = v
+	}
+	for k, v := range c.rebalanceLeftNodeEpochs {
+		s.LeftEpochs[k] = v
+	}
+	for k := range c.rebalanceStartSeen {
+		s.StartSeen = append(s.StartSeen, k)
+	}
+	for k := range c.rebalanceCompleteSeen {
+		s.CompleteSeen = append(s.CompleteSeen, k)
+	}
+	sort.Slice(s.StartSeen, func(i, j int) bool { return s.StartSeen[i] < s.StartSeen[j] })
+	sort.Slice(s.CompleteSeen, func(i, j int) bool { return s.CompleteSeen[i] < s.CompleteSeen[j] })
+	sort.Strings(s.JoinedFilter)
+	sort.Strings(s.LeftFilter)
+	return s
+}
